@@ -208,6 +208,21 @@ def discrete_case(rep, drv, rng, th, fixed=None):
 				rep.count('ssm:holding-eval-mismatch')
 		except Exception as e:
 			bad.append('expected_cost raised %s' % err_enum(e))
+	# Shang-Song newsvendor bounds bracket every optimal level (all supported demand types)
+	try:
+		with warnings.catch_warnings():
+			warnings.simplefilter('ignore')
+			Sl = ssm_serial.newsvendor_heuristic(weight=1, **kw); Su = ssm_serial.newsvendor_heuristic(weight=0, **kw)
+		rep.count('ssm:bounds-checked:' + kind)
+		for j in range(1, N + 1):
+			a_, b_ = min(Sl[j], Su[j]), max(Sl[j], Su[j])
+			if not (a_ - 1e-9 <= pyS[j - 1] <= b_ + 1e-9):
+				# an optimal level outside the bounds is a violation only if no level INSIDE them is equally good (ties)
+				alt = [forward_cost(pyS[:j - 1] + [x_] + pyS[j:], h, Ls, p, ds) for x_ in range(int(math.ceil(a_ - 1e-9)), int(math.floor(b_ + 1e-9)) + 1)]
+				if not alt or min(alt) > ref + 1e-7 * max(1, abs(ref)):
+					bad.append('Shang-Song bounds [%r, %r] do not bracket S*_%d = %d' % (a_, b_, j, pyS[j - 1]))
+	except Exception as e:
+		bad.append('newsvendor_heuristic raised %s: %s' % (err_enum(e), str(e)[:100]))
 	# one stage = newsvendor
 	if N == 1 and kind == 'P':
 		from stockpyl.newsvendor import newsvendor_poisson
